@@ -149,6 +149,13 @@ func BuildSchema15(live *Live) *graphql.Schema {
 		}
 		return []*Obj{{X: o.X*10 + 1, Depth: o.Depth + 1}, {X: o.X*10 + 2, Depth: o.Depth + 1}}
 	})
+	// a union reachable from one of its own members (needed for fragment bombs that recurse through a union)
+	o.FieldFunc("uu", func(o *Obj) *UU {
+		if o.Depth >= 3 {
+			return nil
+		}
+		return &UU{Obj: &Obj{X: o.X*10 + 7, Y: o.Y + "u", Depth: o.Depth + 1}}
+	})
 	o.FieldFunc("boom", func(ctx context.Context, o *Obj, args BoomArgs) (int64, error) { return boom(ctx, args.Mode) })
 	o.BatchFieldFunc("bboom", func(ctx context.Context, in map[batch.Index]*Obj, args BoomArgs) (map[batch.Index]int64, error) {
 		v, err := boom(ctx, args.Mode)
